@@ -341,7 +341,10 @@ def build():
             # short-name index (functions / operators): the object is filed under the short name of its new full name and no longer under the old one
             'implies(has_sn(sclass), forall(Cls, Obj, Id, lambda c, n, i: SNIN(result[1], c, n, i) == ((SNIN(self._shortname_to_id, c, n, i) and not (%s and c == sclass and n == shortname_of(some(old_name)) and i == obj_id))'
             ' or (%s and c == sclass and n == shortname_of(some(new_name)) and i == obj_id))))' % (OLDN, NEWN),
-            'implies(not has_sn(sclass), result[1] == self._shortname_to_id)'],
+            'implies(not has_sn(sclass), result[1] == self._shortname_to_id)',
+            # a name is never taken over: on normal return the new name was free (or is the object's own old name) -- this is the only place a RENAME's new name is checked
+            'implies(is_qualified(sclass) and %s, not (some(new_name) in self._name_to_id) or (%s and some(old_name) == some(new_name)))' % (NEWN, OLDN),
+            'implies(not is_qualified(sclass) and %s, not ((sclass, some(new_name)) in self._globalname_to_id) or (%s and some(old_name) == some(new_name)))' % (NEWN, OLDN)],
         raises={'SchemaError': {}, 'UnknownModuleError': {}, 'AssertionError': {}, 'AttributeError': {}},
         hints=dict(var_types={'ids': 'Set[Id]', 'new_ids': 'Set[Id]'}))
     SAMEDATA = 'forall(Id, lambda r: implies(r != obj.id, (r in result._id_to_data) == (r in self._id_to_data) and implies(r in self._id_to_data, result._id_to_data[r] == self._id_to_data[r])))'
@@ -474,6 +477,12 @@ def extra_obligations(w, tier, seed):
     nm = repo.module('edb/schema/name.py')
     cached = [f.name for f in nm.tree.body if isinstance(f, ast.FunctionDef) and any('lru_cache' in ast.unparse(d) for d in f.decorator_list)
               and f.returns is not None and ast.unparse(f.returns).split('[')[0] in ('List', 'list', 'Dict', 'dict', 'Set', 'set', 'typing.List')]
+    # ... and the memoised lookups of a schema (lru_method_cache on FlatSchema methods that return a dict / list): the cached object belongs to that schema VALUE
+    for cls_ in [n for n in repo.module(SCH).tree.body if isinstance(n, ast.ClassDef)]:
+        for f in cls_.body:
+            if isinstance(f, ast.FunctionDef) and any('lru' in ast.unparse(d) for d in f.decorator_list) and f.returns is not None \
+                    and ast.unparse(f.returns).split('[')[0] in ('List', 'list', 'Dict', 'dict', 'Set', 'set', 'typing.List', 'typing.Dict'):
+                cached.append(f.name)
     MUT = ('append', 'extend', 'insert', 'pop', 'remove', 'sort', 'reverse', 'clear', 'update', 'add', 'discard', 'setdefault')
     bad = []; calls = 0
     for dirpath, dirs, files in os.walk(os.path.join(repo.REPO, 'edb')):
@@ -521,7 +530,7 @@ def extra_obligations(w, tier, seed):
                     where='refresh_classref guarded by %s' % (gl,), function='ast-scan'))
     ok = bool(cached) and calls >= 1 and not bad
     out.append(dict(id='scan/cached-name-lists-not-mutated', kind='ownership', tag='property', paths=1, status='discharged' if ok else ('failed' if bad else 'unknown'), backend='ast-scan', seconds=0.0,
-                    clause='edb/: the list returned by a memoised function of edb/schema/name.py (%s) is never changed in place by a caller' % ', '.join(cached),
+                    clause='edb/: the list / dict returned by a memoised function of edb/schema/name.py or a memoised lookup of edb/schema/schema.py (%s) is never changed in place by a caller' % ', '.join(cached),
                     model=None if ok else {'offending_source_location': bad}, where='; '.join(bad[:3]) or '%d call sites of %s' % (calls, cached), function='ast-scan'))
     return out
 
